@@ -46,10 +46,12 @@ def interior_value(cfg, rng):
     D, N = cfg.dbits, cfg.n
     p = 0
     tens = [10 ** k for k in range(1, 20) if 10 ** k < (1 << D)]
+    half = [t for t in tens if t < (1 << (D // 2))]
     for i in range(N):
         r = rng.random()
         if r < 0.12:
-            d = rng.choice(tens[-3:]) + rng.choice((-1, 0, 0, 1))
+            # the largest powers of ten in a whole digit and in half a digit (both are used as division chunk bases)
+            d = rng.choice(tens[-2:] + half[-2:]) + rng.choice((-1, 0, 0, 1))
         elif r < 0.3:
             d = 0
         elif r < 0.38:
